@@ -542,6 +542,44 @@ def case_aead_decrypt_session(m, layout, alg, adlen, mlen):
     return None
 
 
+def case_forgery_wipe(m, layout, fam, alg, adlen, mlen, inplace):
+    """a packet whose tag is independent of the computed one is rejected with
+    -1 and the plaintext buffer holds zeros afterwards - for every one-shot
+    decrypt family, with separate buffers and with the plaintext decrypted
+    over the ciphertext (m == c)"""
+    names = {"aead": ("ascon%s_aead", None), "masked": ("ascon%s_masked_aead", None), "siv": ("ascon%s_siv", None),
+             "isap": ("ascon%s_isap_aead", None)}
+    prefix = names[fam][0] % alg
+    klen = 20 if alg == "80pq" else 16
+    R = modes.Run(m, layout)
+    K, N, A = R.buf("K", klen), R.buf("N", 16), R.buf("A", adlen)
+    if fam == "siv":
+        wc, wt = R.spec.siv_encrypt(alg, SB("K", klen), SB("N", 16), SB("A", adlen), SB("M", mlen))
+    elif fam == "isap":
+        wc, wt = R.spec.isap_encrypt(alg, SB("K", klen), SB("N", 16), SB("A", adlen), SB("M", mlen))
+    else:
+        wc, wt = R.spec.aead_encrypt(alg, SB("K", klen), SB("N", 16), SB("A", adlen), SB("M", mlen))
+    cin = R.out(mlen + 16)
+    R.mc.store(cin, tuple(wc) + SB("F", 16))
+    mo = cin if inplace else R.buf("PT", mlen)
+    ml = R.out(8)
+    key = K
+    if fam == "masked":
+        key = R.obj(R.struct_size("ascon_masked_key_%s_t" % ("160" if alg == "80pq" else "128")))
+        R.call("ascon_masked_key_%s_init" % ("160" if alg == "80pq" else "128"), key, K)
+    elif fam == "isap":
+        key = R.obj(80)
+        R.call(prefix + "_init", key, K)
+    r = to_int(R.call(prefix + "_decrypt", mo, ml, cin, mlen + 16, A, adlen, N, key))
+    how = "decrypting over the ciphertext (m == c)" if inplace else "separate buffers"
+    if r != 0xffffffff:
+        return ("forgery", "%s: an independent tag is not rejected with -1 (returned %s)" % (how, r))
+    got = R.read(mo, mlen)
+    if mlen and (not affine.is_const(got) or to_int(got) != 0):
+        return ("forgery", "%s: after the tag check failed the %d-byte plaintext buffer does not hold zeros" % (how, mlen))
+    return None
+
+
 def case_aead_inplace(m, layout, alg, adlen, mlen):
     """incremental encrypt / decrypt with identical input and output buffers,
     split into chunks, equals the one-shot specification result"""
